@@ -18,14 +18,17 @@ S = 1 << 14
 
 
 def gamma_grid(n, edge, E):
-    a = np.arange(n + (1 if edge else 0)) / n
-    A1, A2 = np.meshgrid(a, a, indexing='ij')
+    """n: samples per period along a1 (and a2), or a pair (n1, n2) for grids of different fineness along the two vectors"""
+    n1, n2 = (n, n) if np.ndim(n) == 0 else n
+    a1 = np.arange(n1 + (1 if edge else 0)) / n1
+    a2 = np.arange(n2 + (1 if edge else 0)) / n2
+    A1, A2 = np.meshgrid(a1, a2, indexing='ij')
     if edge:
-        EE = np.zeros((n + 1, n + 1))
-        EE[:n, :n] = E
-        EE[n, :n] = E[0]
-        EE[:n, n] = E[:, 0]
-        EE[n, n] = E[0, 0]
+        EE = np.zeros((n1 + 1, n2 + 1))
+        EE[:n1, :n2] = E
+        EE[n1, :n2] = E[0]
+        EE[:n1, n2] = E[:, 0]
+        EE[n1, n2] = E[0, 0]
     else:
         EE = E
     return A1.flatten(), A2.flatten(), EE.flatten()
@@ -52,11 +55,14 @@ def run(ctx):
     ng = 30 if quick else 200
     for gi in range(ng):
         n = int(rng.integers(4, 7))
-        E = rng.integers(0, 21, (n, n)).astype(float)
+        # the two vectors need not be sampled equally finely (a ratio of 5 and more is where a shared boundary cushion once failed)
+        n2 = [n, int(rng.integers(3, 17)), 5 * n, 5 * n + int(rng.integers(1, 4))][int(rng.integers(0, 4))]
+        n = (n, n2)
+        E = rng.integers(0, 21, n).astype(float)
         st = settings[int(rng.integers(0, 4))]
         edge = bool(rng.random() < .5)
         withdelta = bool(rng.random() < .35)
-        tag = 'gamma%d:n%d:%s%s%s' % (gi, n, 'box' if st['box'] is not None else 'cart', ':edge' if edge else '', ':delta' if withdelta else '')
+        tag = 'gamma%d:n%dx%d:%s%s%s' % (gi, n[0], n[1], 'box' if st['box'] is not None else 'cart', ':edge' if edge else '', ':delta' if withdelta else '')
         try:
             g1, g2, ge = gamma_grid(n, edge, E)
             kw = dict(a1vect=st['a1vect'], a2vect=st['a2vect'], a1=g1, a2=g2, E_gsf=ge)
